@@ -8,6 +8,7 @@ open FloatOps
 
 instance : LawfulFloatOps Rat where
   same_iff x y := by simp [FloatOps.same]
+  le_notNaN x y _ := by simp [FloatOps.isNaN]
   le_refl x _ := by simp [FloatOps.le]
   le_total x y _ _ := by
     simp only [FloatOps.le, decide_eq_true_eq]; exact Rat.le_total
@@ -21,6 +22,30 @@ instance : LawfulFloatOps Rat where
   neg_max_le_max := by decide +kernel
   round_addZero x := rfl
   feq_addZero x y := rfl
+  addZero_idem x := rfl
+  addZero_ofInt i y _ := rfl
+  addZero_maxFinite := rfl
+  addZero_neg_maxFinite := rfl
+  addZero_ofGrid k y s _ _ := rfl
+  abs_nonneg x _ := by
+    simp only [FloatOps.isNonneg, FloatOps.ofInt, FloatOps.le, FloatOps.abs, decide_eq_true_eq]
+    have : ((0 : Int) : Rat) = 0 := rfl
+    rw [this]
+    split
+    · assumption
+    · grind
+  mul_notNaN x y _ _ _ := rfl
+  sub_le a x p _ hax hp := by
+    simp only [FloatOps.isNonneg, FloatOps.ofInt, FloatOps.le, FloatOps.sub, decide_eq_true_eq] at *
+    have : ((0 : Int) : Rat) = 0 := rfl
+    rw [this] at hp
+    grind
+  le_add x b p _ hxb hp := by
+    simp only [FloatOps.isNonneg, FloatOps.ofInt, FloatOps.le, FloatOps.add, decide_eq_true_eq] at *
+    have : ((0 : Int) : Rat) = 0 := rfl
+    rw [this] at hp
+    grind
+  ofInt_isSome i _ _ := ⟨(i : Rat), rfl⟩
   ofInt_mono i j x y hij hx hy := by
     simp only [FloatOps.ofInt, Option.some.injEq] at hx hy
     subst hx; subst hy
